@@ -188,7 +188,16 @@ def build(features=(), variant='32'):
     u.impl(cr, mod + '::SeedableRng@' + core, header='impl SeedableRng for ' + core, keep=['type Seed'], fns=['seed_from_u64'], contracts={'seed_from_u64': sfu})
     u.skip(mod + '::SeedableRng@%s::from_seed' % core, '`seed_extended.iter_mut().zip(seed.iter())` (iterator adapters are outside the dialect): Kani harness with a recording init stub (C03/C09)')
     u.skip(mod + '::SeedableRng@%s::{from_rng, try_from_rng}' % core, 'unsafe raw-parts cast of the seed array (T8): Kani harnesses (C09)')
-    u.skip(mod + '::PartialEq@%s::eq' % core, 'slice comparison `self.mem[..] == other.mem[..]`: Kani harness (C10)')
+    u.raw('impl vstd::std_specs::cmp::PartialEqSpecImpl for %s {\n'
+          '    open spec fn obeys_eq_spec() -> bool { true }\n'
+          '    open spec fn eq_spec(&self, other: &%s) -> bool { self.mem@ =~= other.mem@ && self.a == other.a && self.b == other.b && self.c == other.c }\n}' % (core, core))
+    u.impl(cr, mod + '::PartialEq@' + core, header='impl PartialEq for ' + core, fns=['eq'], contracts={
+        'eq': Fn(None, ret='r', builtin_props='C14', trait_props='C10', ensures=[
+            C(p + '.core.eq.iff_all_fields', 'C10', 'r == (self.mem@ =~= other.mem@ && self.a.0 == other.a.0 && self.b.0 == other.b.0 && self.c.0 == other.c.0)')],
+            inserts=[entry('proof { assert(RAND_SIZE == 256) by (compute_only); assert(self.mem@.subrange(0, 256) =~= self.mem@); assert(other.mem@.subrange(0, 256) =~= other.mem@); }')])})
+    u.impl(cr, mod + '::Clone@' + core, header='impl Clone for ' + core, fns=['clone'], contracts={
+        'clone': Fn(None, ret='r', builtin_props='C14', ensures=[
+            C(p + '.core.clone.all_fields', 'C10', 'r.mem@ =~= self.mem@ && r.a.0 == self.a.0 && r.b.0 == self.b.0 && r.c.0 == self.c.0')])})
     u.skip(mod + '::%sRng wrappers' % ('Isaac' if variant == '32' else 'Isaac64'), 'thin wrappers over rand_core::block::BlockRng/BlockRng64 (dependency code): Kani (C05, C09, C10)')
     u.raw('}')
     return u
